@@ -32,7 +32,7 @@ RULE = ("kind workflow: crystal x primitive axes x NAC: `phonopy -d` (displaced 
         "`phonopy-load` and `phonopy -c` q-points with NAC vs the library twin, summary file NAC factor and calculator; "
         "kind settings: every row of the option<->tag table of doc/command-options.md (parsed at run time) x both commands: Settings via option == Settings via conf tag and != default; "
         "non-trivial = output file compared / settings differ from default; distinct = (workflow step) / (table row, command); "
-        "additions of rounds 6-8: BAND_CONST_INTERVAL effect from the reciprocal metric; further option effects against the documented library calls (pretend-real, band indices, cutoff, MP_SHIFT, gv-delta-q, cutoff radius, fc-spg-symmetry, xyz/direction PDOS, nac-method in its documented spellings, q-direction); hcp workflow in the quick tier")
+        "additions of rounds 6-8: BAND_CONST_INTERVAL effect from the reciprocal metric; further option effects against the documented library calls (pretend-real, band indices, cutoff, MP_SHIFT, gv-delta-q, cutoff radius, fc-spg-symmetry, xyz/direction PDOS, nac-method in its documented spellings, q-direction); hcp workflow in the quick tier; --modulation: MPOSCAR-NNN / MPOSCAR / MPOSCAR-orig vs run_modulations of the library twin for modes non-degenerate at their q-point (band index base, amplitude, phase, dimension, sum file)")
 ASSUMPTIONS = [
     "phonopy-load is always given --fc-calc traditional equivalent behaviour is unavailable: symfc is absent, so force constants come from type-1 datasets with the built-in solver",
     "only VASP calculator outputs are synthesised for `-f`; LAMMPS/QE force files are not synthesised here (their structure I/O is covered by C17)",
@@ -746,6 +746,64 @@ def run_case(c):
             cmp_arr("thermal_displacement_matrices", np.array([t_["displacement_matrices"] for t_ in y["thermal_displacement_matrices"]], float), want, 5, "tdispmat", "thermal_displacement_matrices.yaml")
             n_files += 1
             keys.append("wf|%s|tdispmat" % c["crystal"]["name"])
+        # --modulation: MPOSCAR-NNN / MPOSCAR / MPOSCAR-orig vs run_modulations of the library twin (1-based band index of the tag -> 0-based of the API,
+        # amplitude, phase in degrees, dimension). Only modes that are non-degenerate at the q-point (gap > 1e-3 THz measured on the twin) are requested,
+        # so the displacement pattern is unique up to what the documented phase convention fixes.
+        tw = twin()
+        picks = []
+        for qm in ([0.5, 0.5, 0.0], [0.0, 0.5, 0.0], [0.5, 0.5, 0.5], [0.5, 0.0, 0.5]):
+            tw.run_qpoints([qm])
+            fr = tw.get_qpoints_dict()["frequencies"][0]
+            for b in range(len(fr)):
+                if all(abs(fr[b] - fr[b2]) > 1e-3 for b2 in range(len(fr)) if b2 != b) and abs(fr[b]) > 1e-2:
+                    picks.append((qm, b))
+                    break
+            if len(picks) == 2:
+                break
+        if not picks:
+            obs["modulation_skipped_all_degenerate"] = obs.get("modulation_skipped_all_degenerate", 0) + 1
+        else:
+            amps = [(1.5, 30.0), (0.7, None)][:len(picks)]
+            spec = "2 2 2"
+            modes = []
+            for (qm, b), (amp, phase) in zip(picks, amps):
+                spec += ", %s %d %s" % (" ".join("%g" % x for x in qm), b + 1, "%g" % amp) + ("" if phase is None else " %g" % phase)
+                modes.append([qm, b, amp, 0.0 if phase is None else phase])  # a phase left out on the command line is documented as 0
+            mfiles = ["MPOSCAR-%03d" % (i + 1) for i in range(len(picks))] + ["MPOSCAR", "MPOSCAR-orig"]
+            rm("modulation.yaml", *mfiles)
+            if cli("phonopy-load", pre + ["--modulation", spec], "modulation") is not None and all(os.path.exists(os.path.join(tmp, f_)) for f_ in mfiles):
+                from phonopy.interface.vasp import read_vasp
+
+                tw.run_modulations([2, 2, 2], modes)
+                cells = tw.get_modulated_supercells()
+                u_tw, sc_tw = tw.get_modulations_and_supercell()
+                want = {("MPOSCAR-%03d" % (i + 1)): cells[i] for i in range(len(picks))}
+                orig = read_vasp(os.path.join(tmp, "MPOSCAR-orig"))
+                moved = 0.0
+                for fn_, cell_w in want.items():
+                    got = read_vasp(os.path.join(tmp, fn_))
+                    if got.symbols != cell_w.symbols or len(got) != len(cell_w):
+                        bad("output_mismatch", "%s: species/atom count differ from the library's modulated supercell" % fn_, step="modulation", file=fn_, quantity="symbols", **feat)
+                        continue
+                    if np.abs(got.cell - cell_w.cell).max() > 1e-10 * max(1.0, np.abs(cell_w.cell).max()):
+                        bad("output_mismatch", "%s: lattice differs from the library's modulated supercell by %.3e" % (fn_, np.abs(got.cell - cell_w.cell).max()), step="modulation", file=fn_, quantity="lattice", **feat)
+                    d = got.scaled_positions - cell_w.scaled_positions
+                    d -= np.rint(d)
+                    if np.abs(d).max() > 1e-10:
+                        bad("output_mismatch", "%s: atomic positions differ from the library's run_modulations(%s) by %.3e (fractional)" % (fn_, modes, np.abs(d).max()), step="modulation", file=fn_, quantity="positions", **feat)
+                    d0 = got.scaled_positions - orig.scaled_positions
+                    d0 -= np.rint(d0)
+                    moved = max(moved, float(np.abs(d0 @ orig.cell).max()))
+                # the file without a number carries the sum of all requested modulations
+                got = read_vasp(os.path.join(tmp, "MPOSCAR"))
+                d = got.scaled_positions - (sc_tw.scaled_positions + np.sum(u_tw, axis=0).real @ np.linalg.inv(sc_tw.cell))
+                d -= np.rint(d)
+                if np.abs(d).max() > 1e-10:
+                    bad("output_mismatch", "MPOSCAR: positions differ from supercell + sum of the library's modulations by %.3e (fractional)" % np.abs(d).max(), step="modulation", file="MPOSCAR", quantity="positions", **feat)
+                if moved > 1e-3:  # a request that displaces nothing decides nothing
+                    n_files += 1
+                    keys.append("wf|%s|modulation" % c["crystal"]["name"])
+                    obs["modulation_files_compared"] = obs.get("modulation_files_compared", 0) + len(want) + 1
         rm("mesh.hdf5")
         if cli("phonopy-load", pre + ["--mesh", "3", "3", "3", "--hdf5"], "mesh-hdf5") is not None and os.path.exists(os.path.join(tmp, "mesh.hdf5")):
             import h5py
